@@ -30,9 +30,9 @@ Check(i) ==
      /\ IF o.dictlast = ExpectedLast(i) THEN TRUE
         ELSE PrintT(<<"VERDICT", i, FALSE, "C20_DictMembership", o.dictlast>>)
      /\ IF ~IsRec(i) \/ ToSet(o.suppresses) = ExpectedSuppress(i) THEN TRUE
-        ELSE PrintT(<<"VERDICT", i, FALSE, "C20_RRSetLookup", ToSet(o.suppresses)>>)
+        ELSE PrintT(<<"VERDICT", i, FALSE, "C20_RRSetLookup", (ToSet(o.suppresses) \ ExpectedSuppress(i)) \cup (ExpectedSuppress(i) \ ToSet(o.suppresses))>>)
      /\ IF ~IsRec(i) \/ ToSet(o.cachehit) = ExpectedCacheHit(i) THEN TRUE
-        ELSE PrintT(<<"VERDICT", i, FALSE, "C20_CacheLookup", ToSet(o.cachehit)>>)
+        ELSE PrintT(<<"VERDICT", i, FALSE, "C20_CacheLookup", (ToSet(o.cachehit) \ ExpectedCacheHit(i)) \cup (ExpectedCacheHit(i) \ ToSet(o.cachehit))>>)
      /\ IF ~IsRec(i) \/ ToSet(o.cacheknown) = {j \in ExpectedCacheHit(i) : U[j].kind # "NSEC"} THEN TRUE
         ELSE PrintT(<<"VERDICT", i, FALSE, "C20_CacheAddReportsNew", ToSet(o.cacheknown)>>)
 
